@@ -534,7 +534,7 @@ def run_scenario(sc: dict, drv: common.Driver | None) -> dict:
             tag = 'after-a-failed-reload' if failed_before else 'first-attempt'
             if verdict and not is_fault(step):
                 cur = by_name(running)
-                if not adj_off and not sc.get('no_sessions'):
+                if (not adj_off or sc.get('adj_off_tables')) and not sc.get('no_sessions'):
                     for nb in step['new']['nbrs']:
                         a = nb['name']
                         allowed = allowed_after(cur.get(a), nb, due.get(a, {}), owned.get(a, set()))
@@ -862,6 +862,32 @@ def resync_scenarios(rng: Any, count: int) -> list[dict]:
     return out
 
 
+def adj_off_scenarios(rng: Any, count: int) -> list[dict]:
+    """`adj-rib-out false` (nothing is kept of what was sent; the configured routes are what a new session sends): a
+    neighbor with an ESTABLISHED session, one reload that removes, changes and adds routes, no API command, no
+    session loss.  The peer must end up with the routes of the new file — the property does not make an exception
+    for this setting.  Oracle only: M-Rib does not model a RIB without its cache (see DESIGN 10.2)."""
+    out = []
+    for _ in range(count):
+        fams = [1, 2]
+        routes = [r[:3] for r in gen_routes(rng, fams, rng.choice([2, 3, 4]))]
+        kept = copy.deepcopy(routes)
+        x = rng.random()
+        if x < 0.6 and len(kept) > 1:
+            kept.pop(rng.randrange(len(kept)))
+        if x > 0.3:
+            i = rng.randrange(len(kept))
+            kept[i] = [kept[i][0], 1 + kept[i][1] % 3, kept[i][2]]
+        if rng.random() < 0.4:
+            free = [n for n in ribrig.NLRIS if ribrig.NLRI_FAM[n] in fams and n not in (5, 8) and n not in {r[0] for r in routes}]
+            if free:
+                kept.append([rng.choice(free), rng.choice([1, 2, 3]), rng.choice([1, 2])])
+        nb = {'name': 1, 'key': 1, 'fams': fams, 'routes': routes, 'adj': False}
+        out.append({'old': {'procs': [1], 'nbrs': [nb]}, 'up': [1], 'adj_off_tables': True,
+                    'steps': [{'flap': [], 'api': [], 'mode': 'settled', 'new': {'procs': [1], 'nbrs': [dict(nb, routes=kept)]}}]})
+    return out
+
+
 def every_line(sc: dict) -> list[dict]:
     """The broken variants of a one-reload scenario with the fault at EVERY line of the new file, each followed
     by a reload of the original file."""
@@ -992,6 +1018,7 @@ def run(ctx: Ctx) -> None:
         base['steps'][0].pop('fault', None)
         cases += [(v, 'every-line') for v in every_line(base)]
     cases += [(sc, 'resync') for sc in resync_scenarios(rng, 12 if ctx.tier == 'quick' else 300)]
+    cases += [(sc, 'adj-off') for sc in adj_off_scenarios(rng, 10 if ctx.tier == 'quick' else 200)]
     for i in range(ncases):
         cases.append((gen_scenario(rng), 'random'))
     drv = common.Driver('drv_reload') if ctx.driver_ok else None
@@ -1002,7 +1029,7 @@ def run(ctx: Ctx) -> None:
                 ctx.notes.append(f'budget reached after {ctx.evaluations} cases')
                 break
             sc = normalize(sc)
-            res = run_scenario(sc, drv)
+            res = run_scenario(sc, None if sc.get('adj_off_tables') else drv)
             ctx.evaluations += 1
             ctx.count('origin:' + origin)
             ctx.count('reloads:%d' % len(sc['steps']))
@@ -1040,7 +1067,7 @@ def run(ctx: Ctx) -> None:
             for c, what in res['failures']:
                 ctx.count('oracle-fail:' + '/'.join(c))
                 key = json.dumps(c)
-                rank = (origin in ('random', 'every-line', 'resync'), size(sc))
+                rank = (origin in ('random', 'every-line', 'resync', 'adj-off'), size(sc))
                 if key not in best or rank < best[key][0]:
                     best[key] = (rank, sc, what)
     finally:
